@@ -148,6 +148,7 @@ class C15(object):
             d = self.gen(runner.run_seed(987654321, k), ctx)
             d["native"] = False
             d["scale"] = None if k % 2 else [1.0] * d["nfrm"]
+            d["idx_dtype"] = "int64"    # the warm-up runs in the parent: keep to the plainest inputs
             self.execute(d, ctx)
 
     # ------------------------------------------------------------------ workload
@@ -182,6 +183,13 @@ class C15(object):
                 E += [(k, k) for k in range(0, n, 2)]
         E = [(a, b) if rnd.random() < 0.5 else (b, a) for a, b in E]
         nfrm = rnd.randint(1, 12)
+        layout, shape2 = "1d", None
+        if rnd.random() < 0.5:
+            # omega/dty/scale as (rows, columns) maps of the scan, in any memory layout; frame numbers index them in
+            # logical row-major order
+            shape2 = [rnd.randint(1, 5), rnd.randint(1, 5)]
+            nfrm = shape2[0] * shape2[1]
+            layout = rnd.choice(["2d_c", "2d_f", "2d_t", "2d_strided"])
         props = [[rnd.randint(1, 50) for _ in range(n)],            # s1
                  [rnd.randint(1, 100000) for _ in range(n)],        # sI
                  [rnd.randint(0, 10 ** 7) for _ in range(n)],       # srI
@@ -195,7 +203,9 @@ class C15(object):
                 "T": T, "chunking": rnd.choice(["static", "static", "random"]), "cseed": rnd.getrandbits(32),
                 "strategy": rnd.choice(["random", "random", "pct", "rr", "rtc"]), "p_inv": rnd.choice([1, 2, 4, 16, 64]),
                 "quantum": rnd.choice([1, 2, 5]), "pct_d": rnd.choice([1, 2, 3]), "sseed": rnd.getrandbits(48),
-                "native": rnd.random() < 0.04}
+                "native": rnd.random() < 0.04, "layout": layout, "shape2": shape2,
+                "idx_dtype": rnd.choice(["int64", "int64", "int64", "int32", "uint32", "uint16", "uint64"]),
+                "merge_calls": [rnd.random() < 0.5 for _ in range(rnd.choice([0, 0, 1, 2]))]}
 
     def describe(self, desc):
         return {k: desc[k] for k in ("n", "kind", "edges", "T", "chunking", "strategy", "p_inv", "sseed")}
@@ -271,14 +281,38 @@ class C15(object):
         def V(cls, detail):
             return {"class": cls, "key": "ndmerge:" + cls, "detail": detail}
 
+        def lay(vals):
+            a = np.array(vals, float)
+            L = desc.get("layout", "1d")
+            if L == "1d":
+                return a
+            a = a.reshape(desc["shape2"])
+            if L == "2d_f":
+                return np.asfortranarray(a)
+            if L == "2d_t":
+                return a.T.copy().T
+            if L == "2d_strided":
+                big = np.full((a.shape[0], 2 * a.shape[1]), -777.0)
+                big[:, ::2] = a
+                return big[:, ::2]
+            return a
+
         def main():
+            idt = np.dtype(desc.get("idx_dtype", "int64"))
             tab = props.pks_table(ipk=np.array([0, n]), pk_props=np.array(desc["props"], np.int64),
-                                  rc=np.array([ei, ej, np.ones(len(E), np.int64)], np.int64).reshape(3, len(E)))
+                                  rc=np.array([ei, ej, np.ones(len(E), np.int64)], idt).reshape(3, len(E)))
             nl, lab = tab.find_uniq()
             res["nlabel"], res["labels"] = int(nl), np.array(lab)
-            om = np.array(desc["omega"])
-            dy = np.array(desc["dty"])
-            sf = None if desc["scale"] is None else np.array(desc["scale"])
+            om = lay(desc["omega"])
+            dy = lay(desc["dty"])
+            sf = None if desc["scale"] is None else lay(desc["scale"])
+            # the same table merged again (once without and once with the monitor scaling, as dataset code does): every
+            # call must give the sums of that call
+            res["earlier"] = []
+            for with_scale in desc.get("merge_calls", []):
+                sfk = lay(desc["scale"] if (with_scale and desc["scale"] is not None) else [1.0] * len(desc["omega"])) if with_scale else None
+                res["earlier"].append((None if sfk is None else np.array(sfk).ravel().tolist(),
+                                       {k: np.array(v) for k, v in tab.pk2dmerge(om, dy, scale_factor=sfk).items()}))
             res["merged"] = {k: np.array(v) for k, v in tab.pk2dmerge(om, dy, scale_factor=sf).items()}
             res["pk2d"] = {k: np.array(v) for k, v in tab.pk2d(om, dy, scale_factor=sf).items()}
 
@@ -317,14 +351,18 @@ class C15(object):
                                                   "other way round (T=%d, %s chunks, %s)" % (desc["T"], desc["chunking"], desc["strategy"]))
             if viol is None and sweeps > 4 * n + 16:
                 viol = V("too-many-sweeps", "%d sweeps for %d nodes" % (sweeps, n))
-        if viol is None:
+        calls = [] if viol is not None else \
+            [(c_sc, c_mg, "call %d of %d on one table" % (q + 1, len(res["earlier"]) + 1)) for q, (c_sc, c_mg) in enumerate(res["earlier"])] + \
+            [(desc["scale"], res["merged"], "call %d of %d on one table" % (len(res["earlier"]) + 1, len(res["earlier"]) + 1))]
+        for c_sc, mg, which in calls:
+            if viol is not None:
+                break
             P = np.array(desc["props"], float)
             frm = P[4].astype(int)
-            sc = np.ones(len(desc["omega"])) if desc["scale"] is None else np.array(desc["scale"])
+            sc = np.ones(len(desc["omega"])) if c_sc is None else np.array(c_sc)
             w = P[1] * sc[frm]
             om, dy = np.array(desc["omega"])[frm], np.array(desc["dty"])[frm]
             lab = res["labels"]
-            mg = res["merged"]
             for c in range(ncomp):
                 mem = lab == c
                 exp = {"Number_of_pixels": P[0][mem].sum(), "sum_intensity": w[mem].sum(), "npk2d": mem.sum(),
@@ -333,13 +371,27 @@ class C15(object):
                 for k, v in exp.items():
                     got = mg[k][c]
                     if not abs(got - v) <= 1e-10 * max(1.0, abs(v)):
-                        viol = V("merged-property-differs", "merged peak %d (%d members): %s is %r, members give %r" %
-                                 (c, int(mem.sum()), k, float(got), float(v)))
+                        viol = V("merged-property-differs", "merged peak %d (%d members): %s is %r, members give %r (%s, omega/dty "
+                                                            "layout %s)" % (c, int(mem.sum()), k, float(got), float(v), which, desc.get("layout", "1d")))
                         break
                 if viol:
                     break
             if viol is None and list(mg["spot3d_id"]) != list(range(ncomp)):
                 viol = V("merged-property-differs", "spot3d_id of merged peaks is not 0..n-1")
+        if viol is None:
+            # the 2D table itself
+            P = np.array(desc["props"], float)
+            frm = P[4].astype(int)
+            sc = np.ones(len(desc["omega"])) if desc["scale"] is None else np.array(desc["scale"])
+            p2 = res["pk2d"]
+            exp2 = {"s_raw": P[2] / P[1], "f_raw": P[3] / P[1], "omega": np.array(desc["omega"])[frm], "dty": np.array(desc["dty"])[frm],
+                    "Number_of_pixels": P[0], "sum_intensity": P[1] * sc[frm], "spot3d_id": res["labels"]}
+            for k, v in exp2.items():
+                g2 = np.asarray(p2[k], float)
+                if g2.shape != v.shape or not np.all(np.abs(g2 - v) <= 1e-12 * np.maximum(1.0, np.abs(v))):
+                    viol = V("pk2d-differs", "2D peak table column %s differs from the per-peak definition (omega/dty layout %s)" %
+                             (k, desc.get("layout", "1d")))
+                    break
         native_checked = 0
         if viol is None and desc["native"] and n > 0 and len(E):
             # in a forked child: compiled code that indexes out of range would take the worker down with it
